@@ -457,7 +457,10 @@ fn run_case(line: &str) -> String {
         "take" => {
             // C03 take <ty> <ity> <check> <off> <rows> <ioff> <indices>
             let (ty, ity, check, off, rows, ioff, idx) = (t[2], t[3], t[4] == "1", us(t[5]), parse_rows(t[6]), us(t[7]), parse_idx(t[8]));
-            guarded(move || {
+            // failure classes: `ERR:oob` = the ComputeError of check_bounds; every other failure
+            // (panic, or an error raised deeper inside a kernel) is `FAIL` — the property only
+            // says that an out-of-range valid index is not answered with rows
+            let r = guarded(move || {
                 let a = build(ty, &rows, off);
                 let ia = build_idx(ity, &idx, ioff);
                 match take(a.as_ref(), ia.as_ref(), Some(TakeOptions { check_bounds: check })) {
@@ -465,7 +468,8 @@ fn run_case(line: &str) -> String {
                     Err(ArrowError::ComputeError(_)) => "ERR:oob".into(),
                     Err(e) => err_class(&e),
                 }
-            })
+            });
+            if r == "PANIC" || (r.starts_with("ERR:") && r != "ERR:oob") { "FAIL".into() } else { r }
         }
         "concat" => {
             // C03 concat <ty> <variant> <off:rows;…>
@@ -1044,6 +1048,20 @@ fn gen_coalesce(rng: &mut Rng) -> (String, String) {
     )
 }
 
+/// tags derived from a case line and the implementation's answer (same in gen and replay
+/// mode): a `take` with an out-of-range valid index that nevertheless returned rows
+fn answer_tags(line: &str, answer: &str) -> &'static str {
+    let t: Vec<&str> = line.split(' ').collect();
+    if t.len() == 9 && t[1] == "take" {
+        let n = parse_rows(t[6]).len() as i128;
+        let oob = parse_idx(t[8]).iter().any(|(v, valid)| *valid && (*v < 0 || *v >= n));
+        if oob && answer != "FAIL" && !answer.starts_with("ERR:") {
+            return " take:oob-returned-ok";
+        }
+    }
+    ""
+}
+
 fn main() {
     let args = parse_args();
     if std::env::var("VERIF_LOUD").is_err() {
@@ -1053,7 +1071,8 @@ fn main() {
     if args.mode == "replay" {
         for line in read_cases(args.replay.as_ref().unwrap()) {
             let a = run_case(&line);
-            sink.case(line, a, "replay");
+            let tags = format!("replay{}", answer_tags(&line, &a));
+            sink.case(line, a, &tags);
         }
     } else {
         let mut rng = Rng::new(args.seed ^ 0xC03);
@@ -1066,10 +1085,7 @@ fn main() {
             if INVALID_RESULTS.load(std::sync::atomic::Ordering::Relaxed) != before {
                 tags.push_str(" wf:result-fails-validate_full");
             }
-            // a take with an out-of-range valid index that nevertheless returned rows
-            if (tags.contains("take:oob-checked") || tags.contains("take:oob-unchecked")) && a != "PANIC" && !a.starts_with("ERR:") {
-                tags.push_str(" take:oob-returned-ok");
-            }
+            tags.push_str(answer_tags(&line, &a));
             if a.starts_with("BAD:") {
                 // the result array is not made of input rows / fails validation: property violated
                 // on the implementation itself, independent of the Lean model
